@@ -31,9 +31,15 @@ def sx(*a):
 
 
 class Front:
-    def __init__(self, seq):
+    def __init__(self, seq, wire_name=None):
         self.seq = seq
         self.constructs = {}
+        # attribute that holds a wire -> the name the emitted text uses for it (the PORT name since /repo 53243dd); the syntax
+        # handed to Lean names every wire by that name, so attribute name and port name coincide there by construction
+        self.wire_name = wire_name or {}
+
+    def wn(self, attr):
+        return self.wire_name.get(attr, attr)
 
     def note(self, k):
         self.constructs[k] = self.constructs.get(k, 0) + 1
@@ -52,13 +58,13 @@ class Front:
             return sx('loc', e.id)
         if isinstance(e, ast.Attribute):
             if isinstance(e.value, ast.Name) and e.value.id == 'self':
-                return sx('attr', e.attr)
+                return sx('attr', self.wn(e.attr))
             raise NotInSubset('attribute', ast.unparse(e))
         if isinstance(e, ast.Call):
             f = e.func
             if isinstance(f, ast.Attribute) and f.attr == 'get' and not e.args and isinstance(f.value, ast.Attribute) \
                     and isinstance(f.value.value, ast.Name) and f.value.value.id == 'self':
-                return sx('get', f.value.attr)
+                return sx('get', self.wn(f.value.attr))
             if isinstance(f, ast.Attribute) and f.attr == 'getParameterValue' and len(e.args) == 1 and \
                     isinstance(e.args[0], ast.Constant) and isinstance(e.args[0].value, str):
                 self.note('param')
@@ -143,7 +149,7 @@ class Front:
                 if isinstance(f, ast.Attribute) and f.attr in ('put', 'prepare') and len(v.args) == 1 and \
                         isinstance(f.value, ast.Attribute) and isinstance(f.value.value, ast.Name) and f.value.value.id == 'self':
                     self.note(f.attr)
-                    return sx('put' if f.attr == 'put' else 'prep', f.value.attr, self.expr(v.args[0]))
+                    return sx('put' if f.attr == 'put' else 'prep', self.wn(f.value.attr), self.expr(v.args[0]))
             raise NotInSubset('expr-stmt', ast.unparse(s)[:60])
         if isinstance(s, ast.Assert):
             self.note('assert')
@@ -202,7 +208,9 @@ def class_to_syntax(obj, modname=None):
                     and isinstance(v.args[0], ast.Constant):
                 pname = v.args[0].value
                 p = (in_names if v.func.attr == 'addIn' else out_names)[pname]
-                ports.append(dict(attr=attr, port=pname, width=p.wire.getWidth(), isOut=v.func.attr == 'addOut'))
+                from py4hw.rtl_generation import getValidVerilogName
+                vname = getValidVerilogName(pname)
+                ports.append(dict(attr=vname, port=vname, pyattr=attr, pyport=pname, width=p.wire.getWidth(), isOut=v.func.attr == 'addOut'))
             elif isinstance(v, ast.Constant) and isinstance(v.value, (int, bool)):
                 # every constant assignment, in order (the emitted `initial` block repeats them all); `state` keeps one entry
                 # per attribute, first-assignment order, with the LAST assigned value = what the constructed object holds
@@ -222,7 +230,7 @@ def class_to_syntax(obj, modname=None):
     if hasattr(obj, 'parameters'):
         for k in obj.parameters:
             params.append((k, int(obj.getParameterValue(k))))
-    fr = Front(is_seq)
+    fr = Front(is_seq, {p['pyattr']: p['attr'] for p in ports})
     meth = method_ast(obj, 'clock' if is_seq else 'propagate')
     body = fr.body(meth.body)
     clk = 'clk'
